@@ -606,6 +606,12 @@ META = {
                         'truncated file',
                   strengthened=None),
     # ---- eighth round ----
+    'C01-h': dict(breaks='C01', file='adsg_core/optimization/hierarchy/base.py (HierarchyAnalyzerBase.get_graph mask helper)',
+                  change='a refactored helper with an optional mask argument; get_graph forgets to pass the mask of '
+                         'infeasible connection-existence combinations',
+                  needs='complete encoder, conditional connectors with a degree mismatch in some but not all selection '
+                        'combinations: "Infeasible graph specified!" for a vector pointing there',
+                  strengthened=None),
     'C03-h': dict(breaks='C03', file='adsg_core/optimization/assign_enc/lazy_encoding.py (LazyImputer.impute cache key)',
                   change='the imputation cache is keyed on (vector, source / target existence masks) instead of the whole '
                          'existence pattern, so patterns that differ only in a degree override share entries',
